@@ -167,10 +167,84 @@ def check_fire(case):
     return r
 
 
+# ---- histories on one live Ammo: calibration, direct assignment of the public fields, queries ----------------------
+@st.composite
+def _hist(draw):
+    ops = []
+    for _ in range(draw(st.integers(2, 7))):
+        k = draw(st.sampled_from(["calibrate", "set_modifier", "set_mv", "set_powder_temp", "toggle", "query"]))
+        if k == "calibrate":
+            ops.append([k, draw(st.floats(-150.0, 150.0)), draw(st.floats(-50.0, 50.0))])
+        elif k == "set_modifier":
+            ops.append([k, draw(st.one_of(st.floats(-0.3, 0.3), st.sampled_from([0.0, 0.02, 1.5])))])
+        elif k == "set_mv":
+            ops.append([k, draw(st.floats(200.0, 1400.0))])
+        elif k == "set_powder_temp":
+            ops.append([k, draw(st.floats(-40.0, 50.0))])
+        elif k == "query":
+            ops.append([k, draw(st.floats(-60.0, 70.0))])
+        else:
+            ops.append([k])
+    return {"v0": draw(st.floats(200.0, 1400.0)), "t0": draw(st.floats(-40.0, 50.0)),
+            "m": draw(st.floats(-0.1, 0.1)), "on": draw(st.booleans()), "ops": ops,
+            "probes": [draw(st.floats(-60.0, 70.0)) for _ in range(3)]}
+
+
+def check_history(case):
+    r = Res()
+    ammo = pb.Ammo(pb.DragModel(0.3, pb.TableG7), pb.Velocity.MPS(case["v0"]), pb.Temperature.Celsius(case["t0"]),
+                   case["m"], case["on"])
+    calibrated = False
+    nt = False
+    for op in case["ops"]:
+        k = op[0]
+        if k == "calibrate":
+            v0 = ammo.mv >> pb.Velocity.MPS
+            t0c = ammo.powder_temp >> pb.Temperature.Celsius
+            v1, t1 = v0 + op[1], t0c + op[2]
+            if abs(op[1]) < 1.0 or abs(op[2]) < 1.0 or v1 < 50.0:
+                continue
+            ammo.calc_powder_sens(pb.Velocity.MPS(v1), pb.Temperature.Celsius(t1))
+            calibrated = True
+            if ammo.use_powder_sensitivity:
+                got = ammo.get_velocity_for_temp(pb.Temperature.Celsius(t1)) >> pb.Velocity.MPS
+                if not abs(got - v1) <= REL * max(abs(v1), 1.0):
+                    r.bad("C17:history:calibration-not-reproduced", f"after {op}: v(T1) = {got!r}, second measurement {v1!r}")
+        elif k == "set_modifier":
+            ammo.temp_modifier = op[1]
+            nt = nt or calibrated
+        elif k == "set_mv":
+            ammo.mv = pb.Velocity.MPS(op[1])
+            nt = nt or calibrated
+        elif k == "set_powder_temp":
+            ammo.powder_temp = pb.Temperature.Celsius(op[1])
+            nt = nt or calibrated
+        elif k == "toggle":
+            ammo.use_powder_sensitivity = not ammo.use_powder_sensitivity
+        # the law must follow the ammunition's *current* stated velocity, powder temperature and modifier
+        v0 = ammo.mv >> pb.Velocity.MPS
+        t0c = ammo.powder_temp >> pb.Temperature.Celsius
+        m = ammo.temp_modifier
+        for tq in case["probes"] + ([op[1]] if k == "query" else []) + [t0c]:
+            got = ammo.get_velocity_for_temp(pb.Temperature.Celsius(tq)) >> pb.Velocity.MPS
+            tqc = pb.Temperature.Celsius(tq) >> pb.Temperature.Celsius
+            exp = _expected(ammo, v0, t0c, m, tqc) if ammo.use_powder_sensitivity else v0
+            if not abs(got - exp) <= REL * max(abs(v0), abs(exp), 1.0):
+                r.bad("C17:history:law-does-not-follow-current-fields",
+                      f"after {op}: v({tqc!r} C) = {got!r}, the stated fields (v0 {v0!r} @ {t0c!r} C, modifier {m!r}, "
+                      f"enabled={ammo.use_powder_sensitivity}) give {exp!r}", op=op)
+                break
+        if r.violations:
+            break
+    r.nontrivial = nt
+    return r
+
+
 def parts(tier):
     return [
         Part("law", strategy=_case(), check=check_law, n={"quick": 20000, "thorough": 500000}),
         Part("fire", strategy=_case(fire=True), check=check_fire, n={"quick": 640, "thorough": 12000}),
+        Part("history", strategy=_hist(), check=check_history, n={"quick": 6000, "thorough": 120000}),
     ]
 
 
